@@ -1,6 +1,344 @@
+//! Interpreter for bit-reader operation sequences (property C14).
+//!
+//! {"op":"reader","src":[bytes],"avail":N,"entries":[["F",zero,one]|["E",value],..],
+//!  "ops":[["read",n,"u8"],["begin","txn","v"],["end","err"],...]}
+//!
+//! Transactions are real nested closures (`with_transaction`, `with_transaction_union`,
+//! `with_lookahead`): a `begin` op opens one, the matching `end` op makes the closure
+//! return Ok / Err / Ok(None).  Every executed op records its result and a
+//! non-consuming probe of the following bits.
+
+use crate::guarded;
+use h263_rs::parser::H263Reader;
+use h263_rs::verif_hooks::Entry;
+use h263_rs::Error;
 use serde_json::{json, Value};
+use std::cell::RefCell;
+use std::io::Read;
+use std::rc::Rc;
+
+/// A source that can receive more data later.
+#[derive(Clone)]
+pub struct Growing {
+    pub data: Rc<RefCell<(Vec<u8>, usize, usize)>>, // bytes, available, consumed
+}
+
+impl Read for Growing {
+    fn read(&mut self, buf: &mut [u8]) -> std::io::Result<usize> {
+        let mut d = self.data.borrow_mut();
+        let n = buf.len().min(d.1.saturating_sub(d.2));
+        let from = d.2;
+        buf[..n].copy_from_slice(&d.0[from..from + n]);
+        d.2 += n;
+        Ok(n)
+    }
+}
+
+pub fn err_name(e: &Error) -> String {
+    if e.is_eof_error() {
+        return "eof".into();
+    }
+    match e {
+        Error::InternalDecoderError => "internal".into(),
+        other => {
+            let s = format!("{:?}", other);
+            let name: String = s.chars().take_while(|c| c.is_alphanumeric()).collect();
+            format!("err:{}", name)
+        }
+    }
+}
+
+fn hi_lo(v: u64) -> Value {
+    json!([(v >> 16) as i64, (v & 0xFFFF) as i64])
+}
+
+struct Interp<'a> {
+    ops: &'a [Value],
+    res: Vec<Value>,
+    entries: Vec<Entry<i64>>,
+    src: Growing,
+}
+
+type R = H263Reader<Growing>;
+
+fn probe(r: &mut R) -> Value {
+    for w in [24u32, 16, 8, 4, 2, 1] {
+        if let Ok(v) = r.peek_bits::<u32>(w) {
+            return json!([w, v]);
+        }
+    }
+    json!([0, 0])
+}
+
+fn unsigned(r: &mut R, peek: bool, n: u32, ty: &str) -> Result<u64, Error> {
+    macro_rules! go {
+        ($t:ty) => {
+            if peek {
+                r.peek_bits::<$t>(n).map(|v| v as u64)
+            } else {
+                r.read_bits::<$t>(n).map(|v| v as u64)
+            }
+        };
+    }
+    match ty {
+        "u8" => go!(u8),
+        "u16" => go!(u16),
+        "u32" => go!(u32),
+        "u64" => go!(u64),
+        "i16" => {
+            if peek {
+                r.peek_bits::<i16>(n).map(|v| v as u16 as u64)
+            } else {
+                r.read_bits::<i16>(n).map(|v| v as u16 as u64)
+            }
+        }
+        "i32" => {
+            if peek {
+                r.peek_bits::<i32>(n).map(|v| v as u32 as u64)
+            } else {
+                r.read_bits::<i32>(n).map(|v| v as u32 as u64)
+            }
+        }
+        _ => Err(Error::InternalDecoderError),
+    }
+}
+
+fn signed(r: &mut R, peek: bool, n: u32, ty: &str) -> Result<i64, Error> {
+    macro_rules! go {
+        ($t:ty, $s:ty) => {
+            if peek {
+                r.peek_signed_bits::<$t>(n).map(|v| v as $s as i64)
+            } else {
+                r.read_signed_bits::<$t>(n).map(|v| v as $s as i64)
+            }
+        };
+    }
+    match ty {
+        "u8" => go!(u8, i8),
+        "u16" => go!(u16, i16),
+        "u32" => go!(u32, i32),
+        "u64" => go!(u64, i64),
+        "i16" => go!(i16, i16),
+        "i32" => go!(i32, i32),
+        _ => Err(Error::InternalDecoderError),
+    }
+}
+
+impl<'a> Interp<'a> {
+    /// Index of the "end" matching the "begin" at `b`.
+    fn matching_end(&self, b: usize) -> usize {
+        let mut depth = 0;
+        for j in b..self.ops.len() {
+            match self.ops[j][0].as_str().unwrap_or("") {
+                "begin" => depth += 1,
+                "end" => {
+                    depth -= 1;
+                    if depth == 0 {
+                        return j;
+                    }
+                }
+                _ => {}
+            }
+        }
+        self.ops.len()
+    }
+
+    /// Runs ops[*i..] until the enclosing transaction's "end" (or the end of the list).
+    /// Returns the outcome the closure must produce: Ok(Some) / Ok(None) / Err.
+    /// `mode`: "n" never abort, "v" abort the transaction on a failed VLC/UMV read,
+    /// "a" abort on any failed read.
+    fn body(&mut self, r: &mut R, i: &mut usize, end: usize, mode: &str) -> Result<Option<()>, Error> {
+        while *i < end.min(self.ops.len()) {
+            let op = self.ops[*i].clone();
+            let kind = op[0].as_str().unwrap_or("").to_string();
+            let mut failed: Option<Error> = None;
+            let mut is_vlc = false;
+            let mut rec = json!({});
+            match kind.as_str() {
+                "peek" | "read" => {
+                    let n = op[1].as_u64().unwrap() as u32;
+                    match unsigned(r, kind == "peek", n, op[2].as_str().unwrap()) {
+                        Ok(v) => rec = json!({"r":"ok","v":hi_lo(v)}),
+                        Err(e) => {
+                            rec = json!({"r":err_name(&e)});
+                            failed = Some(e);
+                        }
+                    }
+                }
+                "peeks" | "reads" => {
+                    let n = op[1].as_u64().unwrap() as u32;
+                    match signed(r, kind == "peeks", n, op[2].as_str().unwrap()) {
+                        Ok(v) => rec = json!({"r":"ok","v":v}),
+                        Err(e) => {
+                            rec = json!({"r":err_name(&e)});
+                            failed = Some(e);
+                        }
+                    }
+                }
+                "skip" => match r.skip_bits(op[1].as_u64().unwrap() as u32) {
+                    Ok(()) => rec = json!({"r":"ok"}),
+                    Err(e) => {
+                        rec = json!({"r":err_name(&e)});
+                        failed = Some(e);
+                    }
+                },
+                "u8" => match r.read_u8() {
+                    Ok(v) => rec = json!({"r":"ok","v":hi_lo(v as u64)}),
+                    Err(e) => {
+                        rec = json!({"r":err_name(&e)});
+                        failed = Some(e);
+                    }
+                },
+                "vlc" => {
+                    is_vlc = true;
+                    match r.read_vlc(&self.entries[..]) {
+                        Ok(v) => rec = json!({"r":"ok","v":v}),
+                        Err(e) => {
+                            rec = json!({"r":err_name(&e)});
+                            failed = Some(e);
+                        }
+                    }
+                }
+                "umv" => {
+                    is_vlc = true;
+                    match r.read_umv() {
+                        Ok(v) => {
+                            // HalfPel is opaque: recover the unit through its lerp parameters
+                            let (whole, half) = v.into_lerp_parameters();
+                            rec = json!({"r":"ok","v": (whole as i64) * 2 + if half {1} else {0}});
+                        }
+                        Err(e) => {
+                            rec = json!({"r":err_name(&e)});
+                            failed = Some(e);
+                        }
+                    }
+                }
+                "sc" => match r.recognize_start_code(op[1].as_bool().unwrap_or(false)) {
+                    Ok(Some(k)) => rec = json!({"r":"ok","v":k}),
+                    Ok(None) => rec = json!({"r":"none"}),
+                    Err(e) => {
+                        rec = json!({"r":err_name(&e)});
+                        failed = Some(e);
+                    }
+                },
+                "commit" => {
+                    r.commit();
+                    rec = json!({"r":"ok"});
+                }
+                "append" => {
+                    let k = op[1].as_u64().unwrap() as usize;
+                    let mut d = self.src.data.borrow_mut();
+                    d.1 = (d.1 + k).min(d.0.len());
+                    rec = json!({"r":"ok"});
+                }
+                "begin" => {
+                    let tk = op[1].as_str().unwrap_or("txn").to_string();
+                    let m = op[2].as_str().unwrap_or("n").to_string();
+                    let e = self.matching_end(*i);
+                    self.res.push(json!({"r":"ok","p":probe(r)}));
+                    *i += 1;
+                    let ret: String = match tk.as_str() {
+                        "txn" => match r.with_transaction(|rr| self.body(rr, i, e, &m).map(|_| ())) {
+                            Ok(()) => "ok".into(),
+                            Err(Error::InternalDecoderError) => "rollback-failed".into(),
+                            Err(_) => "err".into(),
+                        },
+                        "union" => match r.with_transaction_union(|rr| self.body(rr, i, e, &m)) {
+                            Ok(Some(())) => "ok".into(),
+                            Ok(None) => "none".into(),
+                            Err(Error::InternalDecoderError) => "rollback-failed".into(),
+                            Err(_) => "err".into(),
+                        },
+                        _ => match r.with_lookahead(|rr| self.body(rr, i, e, &m)) {
+                            Ok(Some(())) => "ok".into(),
+                            Ok(None) => "none".into(),
+                            Err(Error::InternalDecoderError) => "rollback-failed".into(),
+                            Err(_) => "err".into(),
+                        },
+                    };
+                    // results of skipped ops (after an abort) are filled so that indices align
+                    while self.res.len() < e.min(self.ops.len()) {
+                        self.res.push(json!({"r":"skipped"}));
+                    }
+                    if e < self.ops.len() {
+                        self.res.push(json!({"r":ret,"p":probe(r)}));
+                    }
+                    *i = e + 1;
+                    continue;
+                }
+                "end" => {
+                    // only reached for an unmatched "end" (malformed command)
+                    rec = json!({"r":"harness:unmatched-end"});
+                }
+                _ => rec = json!({"r":"harness:unknown-op"}),
+            }
+            let abort = failed.is_some() && end < usize::MAX && (mode == "a" || (mode == "v" && is_vlc));
+            if !(failed.is_some() && is_vlc) {
+                rec["p"] = probe(r);
+            }
+            self.res.push(rec);
+            *i += 1;
+            if abort {
+                return Err(match failed.unwrap() {
+                    // keep the kind distinguishable from a failed rollback
+                    Error::InternalDecoderError => Error::InvalidBitstream,
+                    e => e,
+                });
+            }
+            if failed_vlc_toplevel(end, is_vlc, self.res.last()) {
+                // position undefined from here on: stop
+                *i = self.ops.len();
+                return Ok(Some(()));
+            }
+        }
+        // the closing "end" op decides what the closure returns
+        if end < self.ops.len() {
+            match self.ops[end][1].as_str().unwrap_or("ok") {
+                "ok" => Ok(Some(())),
+                "none" => Ok(None),
+                _ => Err(Error::InvalidBitstream),
+            }
+        } else {
+            Ok(Some(()))
+        }
+    }
+}
+
+fn failed_vlc_toplevel(end: usize, is_vlc: bool, last: Option<&Value>) -> bool {
+    end == usize::MAX && is_vlc && last.map(|r| r["r"] != "ok").unwrap_or(false)
+}
+
 pub fn reader(cmd: &Value) -> Value {
     let mut ev = cmd.clone();
-    ev["ret"] = json!("harness:unimplemented");
+    let src = crate::bytes(&cmd["src"]);
+    let avail = cmd["avail"].as_u64().unwrap_or(src.len() as u64) as usize;
+    let entries: Vec<Entry<i64>> = cmd["entries"]
+        .as_array()
+        .map(|a| {
+            a.iter()
+                .map(|e| {
+                    if e[0] == "F" {
+                        Entry::Fork(e[1].as_u64().unwrap() as usize, e[2].as_u64().unwrap() as usize)
+                    } else {
+                        Entry::End(e[1].as_i64().unwrap())
+                    }
+                })
+                .collect()
+        })
+        .unwrap_or_default();
+    let ops: Vec<Value> = cmd["ops"].as_array().cloned().unwrap_or_default();
+    let g = Growing { data: Rc::new(RefCell::new((src.clone(), avail.min(src.len()), 0))) };
+    let mut it = Interp { ops: &ops, res: Vec::new(), entries, src: g.clone() };
+    let mut rd = H263Reader::from_source(g.clone());
+    let mut i = 0usize;
+    let out = guarded(|| {
+        let _ = it.body(&mut rd, &mut i, usize::MAX, "n");
+    });
+    ev["res"] = json!(it.res);
+    ev["ret"] = match out {
+        Ok(()) => json!("ok"),
+        Err(m) => json!(format!("panic:{}", m)),
+    };
+    ev["fetched"] = json!(g.data.borrow().2);
     ev
 }
